@@ -65,6 +65,11 @@ static void add_binary_cases() {
     {"operator+=(vector)", [](SU_vector& a, SU_vector& b) { a += b; }},
     {"operator-=(vector)", [](SU_vector& a, SU_vector& b) { a -= b; }},
     {"operator+=(proxy)", [](SU_vector& a, SU_vector& b) { a += b * 2.0; }},
+    // a guarantee the caller may truthfully give (the operands are distinct objects on distinct storage) does not promise equal sizes
+    {"operator+=(guarantee<NoAlias>(proxy))[distinct-storage-only]", [](SU_vector& a, SU_vector& b) { a += squids::detail::guarantee<squids::detail::NoAlias>(b * 2.0); }},
+    {"operator-=(guarantee<NoAlias>(commutator))[distinct-storage-only]", [](SU_vector& a, SU_vector& b) { a -= squids::detail::guarantee<squids::detail::NoAlias>(iCommutator(b, b)); }},
+    {"operator=(guarantee<NoAlias>(sum))[distinct-storage-only]", [](SU_vector& a, SU_vector& b) { a = squids::detail::guarantee<squids::detail::NoAlias>(a + b); }},
+    {"operator+=(guarantee<NoAlias>(evolution))[distinct-storage-only]", [](SU_vector& a, SU_vector& b) { SU_vector h(b.Dim()); a += squids::detail::guarantee<squids::detail::NoAlias>(b.Evolve(h, 0.3)); }},
     {"operator-=(proxy)", [](SU_vector& a, SU_vector& b) { a -= -b; }},
     {"operator+=(rvalue-proxy)", [](SU_vector& a, SU_vector& b) { a += std::move(b) * 2.0; }},
     {"operator-=(rvalue-proxy)", [](SU_vector& a, SU_vector& b) { a -= -std::move(b); }},
@@ -85,7 +90,7 @@ static void add_binary_cases() {
       auto f = op.f;
       c.fn = [=]() { Operand a(d1, ext, 0), b(d2, ext, 1); return guard([&]() { f(a.v, b.v); }, [&]() { return a.intact() && b.intact(); }); };
       cases.push_back(c);
-      if (ext) {   // both operands are views of one user buffer (legal: the buffer fits the larger one); start addresses coincide
+      if (ext && !strstr(op.name, "[distinct-storage-only]")) {   // both operands are views of one user buffer (legal: the buffer fits the larger one); start addresses coincide
         Case c2; c2.sig = std::string(op.name) + ":dimension-mismatch:shared-buffer"; c2.desc = fmt("%s d1=%d d2=%d storage=one-shared-user-buffer", op.name, d1, d2);
         c2.fn = [=]() { Operand big(6, true, 2); Operand a(d1, true, 0, &big), b(d2, true, 1, &big); return guard([&]() { f(a.v, b.v); }, [&]() { return a.intact() && b.intact() && big.intact(); }); };
         cases.push_back(c2);
